@@ -29,6 +29,9 @@ type c07Plan struct {
 	// the completing packet.
 	Pre  bool `json:"pre,omitempty"`
 	Post bool `json:"post,omitempty"`
+	// Full: so many packages are put in front of the context that the first packet (context and prefix of the
+	// truncated package) is exactly as long as the packet size in force, 512 bytes.
+	Full bool `json:"full,omitempty"`
 }
 
 type c07 struct{}
@@ -126,6 +129,7 @@ func (c07) Gen(r *Rand, idx int, tier string) interface{} {
 	}
 	p.Pre = idx%3 == 1
 	p.Post = idx%4 == 1
+	p.Full = idx%7 == 3
 	return p
 }
 func (c07) Decode(raw json.RawMessage) (interface{}, error) {
@@ -162,6 +166,24 @@ func (c07) Run(plan interface{}, schedSeed uint64, replay []simrt.Choice, lenien
 	}
 	if p.Pre {
 		ctx = append(peer.Done(0x11, 0, 4711), ctx...)
+	}
+	if p.Full {
+		// fill up with DONE(more) (9 bytes) and RETURNSTATUS (5 bytes) packages: 9a+5b reaches every number from 32 on
+		if need := 504 - len(ctx) - p.K; need >= 32 {
+			var fill []byte
+			b := 0
+			for (need-5*b)%9 != 0 {
+				b++
+			}
+			for i := 0; i < b; i++ {
+				fill = append(fill, peer.ReturnStatus(int32(i))...)
+			}
+			for i := 0; i < (need-5*b)/9; i++ {
+				fill = append(fill, peer.Done(0x11, 0, int32(9000+i))...)
+			}
+			ctx = append(fill, ctx...)
+			v.Probe("first-packet-exactly-full")
+		}
 	}
 	full := append(append([]byte{}, ctx...), e.Bytes...)
 	if p.Post {
